@@ -138,12 +138,15 @@ def run_tests(root):
 def mutants(args):
     props = [a for a in args if not a.startswith("-")]
     skip_tests = "--skip-tests" in args
+    only_benign = "--benign" in args
     only = [a[5:] for a in args if a.startswith("--id=")]
     results = []
     for mutant in load_mutants():
         if props and mutant["property"] not in props:
             continue
         if only and mutant["id"] not in only:
+            continue
+        if only_benign and not mutant.get("benign"):
             continue
         root = make_scratch(mutant)
         try:
@@ -176,10 +179,15 @@ def mutants(args):
                         os.remove(path)
         finally:
             shutil.rmtree(root, ignore_errors=True)
-    missed = [m["id"] for m, t, c in results if t and not c]
-    notvalid = [m["id"] for m, t, c in results if not t]
-    print("sensitivity: %d mutants, %d caught, missed=%s, "
+    breaking = [r for r in results if not r[0].get("benign")]
+    benign = [r for r in results if r[0].get("benign")]
+    missed = [m["id"] for m, t, c in breaking if t and not c]
+    notvalid = [m["id"] for m, t, c in breaking if not t]
+    false_alarms = [m["id"] for m, t, c in benign if c]
+    print("sensitivity: %d breaking transforms, %d caught, missed=%s, "
           "killed-by-existing-tests=%s" % (
-              len(results), sum(1 for _, _, c in results if c), missed,
+              len(breaking), sum(1 for _, _, c in breaking if c), missed,
               notvalid))
-    return 1 if missed else 0
+    print("specificity: %d property-preserving transforms, false alarms=%s"
+          % (len(benign), false_alarms))
+    return 1 if (missed or false_alarms) else 0
